@@ -174,23 +174,19 @@ def collect(rep, pid, tier, seed):
     # attribute the pending violations: is the derivation of the symbolic partial tainted by the named finding KF-1 only?
     if pending or model_bad:
         keys, trees_attr = {}, []
+
+        def need(t, v):
+            for route in ("fw", "rv"):
+                k = (J.key(t), v, route)
+                if k not in keys:
+                    o = J.build_tree(t)
+                    un = o._synthetic_partial(v) if route == "fw" else o._synthetic_partials().get(v, S.Constant(0))
+                    keys[k] = len(trees_attr)
+                    trees_attr.append(J.expr_to_E(un))
+        for t, v in model_bad:            # the model's own failures first (few): they must be attributable, whatever the cap
+            need(t, v)
         for item in pending:
-            _, _, t, v, rt = item
-            for route in ("fw", "rv"):
-                k = (J.key(t), v, route)
-                if k not in keys:
-                    o = J.build_tree(t)
-                    un = o._synthetic_partial(v) if route == "fw" else o._synthetic_partials().get(v, S.Constant(0))
-                    keys[k] = len(trees_attr)
-                    trees_attr.append(J.expr_to_E(un))
-        for t, v in model_bad:
-            for route in ("fw", "rv"):
-                k = (J.key(t), v, route)
-                if k not in keys:
-                    o = J.build_tree(t)
-                    un = o._synthetic_partial(v) if route == "fw" else o._synthetic_partials().get(v, S.Constant(0))
-                    keys[k] = len(trees_attr)
-                    trees_attr.append(J.expr_to_E(un))
+            need(item[2], item[3])
         attr = eng_reduce.kf1_attribution(trees_attr)
         for clause, desc, t, v, rt in pending:
             route = "rv" if rt == "df" else "fw"
